@@ -65,4 +65,275 @@ theorem add_wf (a b : Nat) (hab : a < b) (rs : List Rg) (hwf : WF rs) : WF (add 
         have := wf_head hwf
         simp; omega
 
+/-! ## Set semantics -/
+
+@[simp] theorem mem_nil (x : Nat) : mem x [] ↔ False := by simp [mem]
+
+theorem mem_cons {x : Nat} {r : Rg} {rs : List Rg} :
+    mem x (r :: rs) ↔ (r.start ≤ x ∧ x < r.stop) ∨ mem x rs := by
+  simp [mem]
+
+theorem contains_iff_mem (x : Nat) (rs : List Rg) : contains x rs = true ↔ mem x rs := by
+  simp [contains, mem]
+
+instance (x : Nat) (rs : List Rg) : Decidable (mem x rs) :=
+  decidable_of_iff _ (contains_iff_mem x rs)
+
+/-- in a well-formed list everything after the head lies strictly above the head's stop -/
+theorem wf_mem_gt {r : Rg} {rs : List Rg} (h : WF (r :: rs)) {x : Nat} (hx : mem x rs) : r.stop < x := by
+  induction rs generalizing r with
+  | nil => simp at hx
+  | cons r' rest ih =>
+    rcases mem_cons.1 hx with h1 | h1
+    · have := h.2.1; omega
+    · have := ih h.2.2 h1
+      have := h.2.1; have := wf_head h.2.2; omega
+
+theorem wf_cons_iff {r : Rg} {rs : List Rg} :
+    WF (r :: rs) ↔ r.start < r.stop ∧ WF rs ∧ ∀ x, mem x rs → r.stop < x := by
+  constructor
+  · intro h; exact ⟨wf_head h, wf_tail h, fun x hx => wf_mem_gt h hx⟩
+  · rintro ⟨h1, h2, h3⟩
+    refine wf_cons h1 ?_ h2
+    cases rs with
+    | nil => trivial
+    | cons r' rest =>
+      have := wf_head h2
+      exact h3 r'.start (mem_cons.2 (Or.inl ⟨Nat.le_refl _, this⟩))
+
+/-- the head of a well-formed list is the least range: its start is a member and every member is ≥ it -/
+theorem wf_head_least {r : Rg} {rs : List Rg} (h : WF (r :: rs)) :
+    mem r.start (r :: rs) ∧ ∀ x, mem x (r :: rs) → r.start ≤ x := by
+  have h0 := wf_head h
+  refine ⟨mem_cons.2 (Or.inl ⟨Nat.le_refl _, h0⟩), ?_⟩
+  intro x hx
+  rcases mem_cons.1 hx with h1 | h1
+  · exact h1.1
+  · have := wf_mem_gt h h1; omega
+
+/-- the stop of the head of a well-formed list is not a member (ranges do not touch) -/
+theorem wf_head_stop_not_mem {r : Rg} {rs : List Rg} (h : WF (r :: rs)) : ¬ mem r.stop (r :: rs) := by
+  intro hx
+  rcases mem_cons.1 hx with h1 | h1
+  · omega
+  · have := wf_mem_gt h h1; omega
+
+theorem wf_no_mem_eq_nil {rs : List Rg} (h : WF rs) (hn : ∀ x, ¬ mem x rs) : rs = [] := by
+  cases rs with
+  | nil => rfl
+  | cons r rest => exact absurd (wf_head_least h).1 (hn _)
+
+theorem absorb_mem (lo stop : Nat) (rs : List Rg) (hwf : WF rs)
+    (hlo : ∀ x, mem x rs → lo ≤ x) (h : lo ≤ stop) (x : Nat) :
+    ((lo ≤ x ∧ x < (absorb stop rs).1) ∨ mem x (absorb stop rs).2) ↔
+      ((lo ≤ x ∧ x < stop) ∨ mem x rs) := by
+  induction rs generalizing stop with
+  | nil => simp [absorb]
+  | cons r rest ih =>
+    unfold absorb
+    have h0 := wf_head hwf
+    have h1 := hlo r.start (mem_cons.2 (Or.inl ⟨Nat.le_refl _, h0⟩))
+    split
+    · rw [ih (max r.stop stop) (wf_tail hwf) (fun y hy => hlo y (mem_cons.2 (Or.inr hy))) (by omega)]
+      rw [mem_cons]
+      constructor
+      · rintro (h2 | h2)
+        · by_cases x < stop
+          · exact Or.inl ⟨h2.1, by omega⟩
+          · exact Or.inr (Or.inl ⟨by omega, by omega⟩)
+        · exact Or.inr (Or.inr h2)
+      · rintro (h2 | h2 | h2)
+        · exact Or.inl ⟨h2.1, by omega⟩
+        · exact Or.inl ⟨by omega, by omega⟩
+        · exact Or.inr h2
+    · rfl
+
+/-- `add` is set union with the interval `[a, b)` -/
+theorem add_mem (a b : Nat) (hab : a < b) (rs : List Rg) (hwf : WF rs) (x : Nat) :
+    mem x (add a b rs) ↔ mem x rs ∨ (a ≤ x ∧ x < b) := by
+  induction rs with
+  | nil => simp [add, mem]
+  | cons r rest ih =>
+    unfold add
+    have h0 := wf_head hwf
+    split
+    · rw [mem_cons]; simp only []; constructor
+      · rintro (h | h); exact Or.inr h; exact Or.inl h
+      · rintro (h | h); exact Or.inr h; exact Or.inl h
+    · split
+      · rw [mem_cons, ih (wf_tail hwf), mem_cons]
+        constructor
+        · rintro (h | h | h)
+          · exact Or.inl (Or.inl h)
+          · exact Or.inl (Or.inr h)
+          · exact Or.inr h
+        · rintro ((h | h) | h)
+          · exact Or.inl h
+          · exact Or.inr (Or.inl h)
+          · exact Or.inr (Or.inr h)
+      · simp only []
+        rw [mem_cons]
+        simp only []
+        have hm := absorb_mem (min a r.start) (max b r.stop) rest (wf_tail hwf)
+          (fun y hy => by have := wf_mem_gt hwf hy; omega) (by omega) x
+        rw [hm, mem_cons]
+        constructor
+        · rintro (h | h)
+          · by_cases hx : a ≤ x ∧ x < b
+            · exact Or.inr hx
+            · exact Or.inl (Or.inl ⟨by omega, by omega⟩)
+          · exact Or.inl (Or.inr h)
+        · rintro ((h | h) | h)
+          · exact Or.inl ⟨by omega, by omega⟩
+          · exact Or.inr h
+          · exact Or.inl ⟨by omega, by omega⟩
+
+/-- `subtract` is set difference with the interval `[a, b)` -/
+theorem subtract_mem (a b : Nat) (rs : List Rg) (hwf : WF rs) (x : Nat) :
+    mem x (subtract a b rs) ↔ mem x rs ∧ ¬ (a ≤ x ∧ x < b) := by
+  induction rs with
+  | nil => simp [subtract]
+  | cons r rest ih =>
+    unfold subtract
+    have h0 := wf_head hwf
+    have hgt : mem x rest → r.stop < x := fun hy => wf_mem_gt hwf hy
+    have ih := ih (wf_tail hwf)
+    split
+    · constructor
+      · intro h
+        refine ⟨h, ?_⟩
+        have := (wf_head_least hwf).2 x h; omega
+      · exact fun h => h.1
+    · split
+      · rw [mem_cons, ih, mem_cons]
+        constructor
+        · rintro (h | h)
+          · exact ⟨Or.inl h, by omega⟩
+          · exact ⟨Or.inr h.1, h.2⟩
+        · rintro ⟨h | h, h2⟩
+          · exact Or.inl h
+          · exact Or.inr ⟨h, h2⟩
+      · split
+        · rw [ih, mem_cons]
+          constructor
+          · rintro ⟨h, h2⟩; exact ⟨Or.inr h, h2⟩
+          · rintro ⟨h | h, h2⟩
+            · omega
+            · exact ⟨h, h2⟩
+        · split
+          · split
+            · simp only [mem_cons]
+              constructor
+              · rintro (h | h | h)
+                · exact ⟨Or.inl ⟨h.1, by omega⟩, by omega⟩
+                · exact ⟨Or.inl ⟨by omega, h.2⟩, by omega⟩
+                · have := hgt h; exact ⟨Or.inr h, by omega⟩
+              · rintro ⟨h | h, h2⟩
+                · by_cases x < a
+                  · exact Or.inl ⟨h.1, by omega⟩
+                  · exact Or.inr (Or.inl ⟨by omega, h.2⟩)
+                · exact Or.inr (Or.inr h)
+            · rw [mem_cons, ih, mem_cons]
+              constructor
+              · rintro (h | h)
+                · exact ⟨Or.inl ⟨h.1, by simp only [] at h; omega⟩, by simp only [] at h; omega⟩
+                · exact ⟨Or.inr h.1, h.2⟩
+              · rintro ⟨h | h, h2⟩
+                · exact Or.inl ⟨h.1, by simp only []; omega⟩
+                · exact Or.inr ⟨h, h2⟩
+          · rw [mem_cons, ih, mem_cons]
+            constructor
+            · rintro (h | h)
+              · simp only [] at h; exact ⟨Or.inl ⟨by omega, h.2⟩, by omega⟩
+              · exact ⟨Or.inr h.1, h.2⟩
+            · rintro ⟨h | h, h2⟩
+              · exact Or.inl ⟨by simp only []; omega, h.2⟩
+              · exact Or.inr ⟨h, h2⟩
+
+/-- `subtract` preserves well-formedness (Python asserts `stop > start`) -/
+theorem subtract_wf (a b : Nat) (hab : a < b) (rs : List Rg) (hwf : WF rs) : WF (subtract a b rs) := by
+  induction rs with
+  | nil => simp [subtract, WF]
+  | cons r rest ih =>
+    unfold subtract
+    have h0 := wf_head hwf
+    have ih := ih (wf_tail hwf)
+    have hgt : ∀ y, mem y (subtract a b rest) → r.stop < y := fun y hy =>
+      wf_mem_gt hwf ((subtract_mem a b rest (wf_tail hwf) y).1 hy).1
+    split
+    · exact hwf
+    · split
+      · exact wf_cons_iff.2 ⟨h0, ih, hgt⟩
+      · split
+        · exact ih
+        · split
+          · split
+            · refine wf_cons_iff.2 ⟨by simp only []; omega, wf_cons_iff.2 ⟨by simp only []; omega, wf_tail hwf, ?_⟩, ?_⟩
+              · intro y hy; exact wf_mem_gt hwf hy
+              · intro y hy
+                simp only []
+                rcases mem_cons.1 hy with h | h
+                · simp only [] at h; omega
+                · have := wf_mem_gt hwf h; omega
+            · refine wf_cons_iff.2 ⟨by simp only []; omega, ih, ?_⟩
+              intro y hy; have := hgt y hy; simp only []; omega
+          · refine wf_cons_iff.2 ⟨by simp only []; omega, ih, ?_⟩
+            intro y hy; exact hgt y hy
+
+/-- the tail left by `shift` is well-formed, and the range shifted out is the least one -/
+theorem shift_wf {rs rest : List Rg} {r : Rg} (hwf : WF rs) (h : shift rs = some (r, rest)) :
+    WF rest ∧ rs = r :: rest ∧ (∀ x, mem x rest → r.stop < x) := by
+  cases rs with
+  | nil => simp [shift] at h
+  | cons r' rest' =>
+    simp only [shift, Option.some.injEq, Prod.mk.injEq] at h
+    obtain ⟨rfl, rfl⟩ := h
+    exact ⟨wf_tail hwf, rfl, fun x hx => wf_mem_gt hwf hx⟩
+
+/-- canonicity: a well-formed list is determined by its members -/
+theorem wf_ext {rs₁ rs₂ : List Rg} (h₁ : WF rs₁) (h₂ : WF rs₂)
+    (h : ∀ x, mem x rs₁ ↔ mem x rs₂) : rs₁ = rs₂ := by
+  induction rs₁ generalizing rs₂ with
+  | nil =>
+    exact (wf_no_mem_eq_nil h₂ (fun x hx => by simpa using (h x).2 hx)).symm
+  | cons r₁ t₁ ih =>
+    cases rs₂ with
+    | nil => exact wf_no_mem_eq_nil h₁ (fun x hx => by simpa using (h x).1 hx)
+    | cons r₂ t₂ =>
+      have l₁ := wf_head_least h₁
+      have l₂ := wf_head_least h₂
+      have a₁ := wf_head h₁
+      have a₂ := wf_head h₂
+      have hs : r₁.start = r₂.start := by
+        have := l₂.2 _ ((h _).1 l₁.1)
+        have := l₁.2 _ ((h _).2 l₂.1)
+        omega
+      have he : r₁.stop = r₂.stop := by
+        have n₁ := wf_head_stop_not_mem h₁
+        have n₂ := wf_head_stop_not_mem h₂
+        rcases Nat.lt_trichotomy r₁.stop r₂.stop with hlt | heq | hgt
+        · exact absurd ((h _).2 (mem_cons.2 (Or.inl ⟨by omega, hlt⟩))) n₁
+        · exact heq
+        · exact absurd ((h _).1 (mem_cons.2 (Or.inl ⟨by omega, hgt⟩))) n₂
+      have hr : r₁ = r₂ := by cases r₁; cases r₂; simp_all
+      subst hr
+      congr 1
+      apply ih (wf_tail h₁) (wf_tail h₂)
+      intro x
+      have g₁ : mem x t₁ → r₁.stop < x := fun hx => wf_mem_gt h₁ hx
+      have g₂ : mem x t₂ → r₁.stop < x := fun hx => wf_mem_gt h₂ hx
+      have hh := h x
+      rw [mem_cons, mem_cons] at hh
+      constructor
+      · intro hx
+        have := g₁ hx
+        rcases hh.1 (Or.inr hx) with h' | h'
+        · omega
+        · exact h'
+      · intro hx
+        have := g₂ hx
+        rcases hh.2 (Or.inr hx) with h' | h'
+        · omega
+        · exact h'
+
 end AQ.RangeSet
